@@ -1,0 +1,150 @@
+//go:build verif
+
+// Contracts for package netflow9, checked by /verif/govc (comment-only file; it declares nothing).
+package netflow9
+
+//@ globalinv shardNo == 32
+
+//@ pred nonfatal9(e error) = e != nil && typeid(e) == tyof(nonfatalError)
+//@ pred fatal9(e error) = e != nil && typeid(e) != tyof(nonfatalError)
+//@ pred wellFormed9(m MemCache) = len(m) == 32 && (forall i :: 0 <= i && i < 32 ==> m[i] != nil && !m[i].Templates.isnil)
+
+//@ pred phdrAt(h PacketHeader, b []byte, p mathint) = h.Version == be16(b, p) && h.Count == be16(b, p+2)
+//@     && h.SysUpTime == be32(b, p+4) && h.UNIXSecs == be32(b, p+8) && h.SeqNum == be32(b, p+12) && h.SrcID == be32(b, p+16)
+
+//@ func (*PacketHeader).unmarshal
+//@   requires rdr(r)
+//@   ensures inv(r) && r.base == old(r.base) && r.count >= old(r.count)
+//@   ensures old(len(r.data)) >= 20 ==> err == nil && r.count == old(r.count) + 20 && phdrAt(h, r.base, old(r.count))
+//@   ensures old(len(r.data)) < 20 ==> err != nil
+//@   modifies h, r.data, r.count
+
+//@ func (*PacketHeader).validate
+//@   ensures err == nil <==> h.Version == 9
+
+//@ func (*SetHeader).unmarshal
+//@   requires rdr(r)
+//@   ensures inv(r) && r.base == old(r.base) && r.count >= old(r.count)
+//@   ensures old(len(r.data)) >= 4 ==> err == nil && r.count == old(r.count) + 4 && h.FlowSetID == be16(r.base, old(r.count)) && h.Length == be16(r.base, old(r.count)+2)
+//@   ensures old(len(r.data)) < 4 ==> err == reader.errReader
+//@   modifies h, r.data, r.count
+
+//@ func (*TemplateHeader).unmarshal
+//@   requires rdr(r)
+//@   ensures inv(r) && r.base == old(r.base) && r.count >= old(r.count)
+//@   ensures old(len(r.data)) >= 4 ==> err == nil && r.count == old(r.count) + 4 && t.TemplateID == be16(r.base, old(r.count)) && t.FieldCount == be16(r.base, old(r.count)+2)
+//@   ensures old(len(r.data)) < 4 ==> err == reader.errReader
+//@   modifies t, r.data, r.count
+
+//@ func (*TemplateHeader).unmarshalOpts
+//@   requires rdr(r)
+//@   ensures inv(r) && r.base == old(r.base) && r.count >= old(r.count)
+//@   ensures old(len(r.data)) >= 6 ==> err == nil && r.count == old(r.count) + 6 && t.TemplateID == be16(r.base, old(r.count))
+//@       && t.OptionScopeLen == be16(r.base, old(r.count)+2) && t.OptionLen == be16(r.base, old(r.count)+4)
+//@   ensures old(len(r.data)) < 6 ==> err == reader.errReader
+//@   modifies t, r.data, r.count
+
+//@ func (*TemplateFieldSpecifier).unmarshal
+//@   requires rdr(r)
+//@   ensures inv(r) && r.base == old(r.base) && r.count >= old(r.count)
+//@   ensures old(len(r.data)) >= 4 ==> err == nil && r.count == old(r.count) + 4 && f.ElementID == be16(r.base, old(r.count)) && f.Length == be16(r.base, old(r.count)+2)
+//@   ensures old(len(r.data)) < 4 ==> err == reader.errReader
+//@   modifies f, r.data, r.count
+
+//@ func (*TemplateRecord).unmarshal
+//@   requires rdr(r)
+//@   ensures inv(r) && r.base == old(r.base) && r.count >= old(r.count)
+//@   ensures err == nil ==> r.count == old(r.count) + 4 + 4*tr.FieldCount && tr.TemplateID == be16(r.base, old(r.count)) && tr.FieldCount == be16(r.base, old(r.count)+2)
+//@   ensures err == nil ==> len(tr.FieldSpecifiers) == old(len(tr.FieldSpecifiers)) + tr.FieldCount
+//@   ensures err != nil ==> err == reader.errReader
+//@   modifies tr, r.data, r.count
+//@   loop 1
+//@     invariant rdr(r) && r.base == old(r.base) && tr != nil
+//@     invariant 0 <= i && i <= th.FieldCount && tr.TemplateID == th.TemplateID && tr.FieldCount == th.FieldCount
+//@     invariant th.TemplateID == be16(r.base, old(r.count)) && th.FieldCount == be16(r.base, old(r.count)+2)
+//@     invariant len(tr.FieldSpecifiers) == old(len(tr.FieldSpecifiers)) + (th.FieldCount - i)
+//@     invariant r.count == old(r.count) + 4 + 4*(th.FieldCount - i)
+//@     decreases i
+
+//@ func (*TemplateRecord).unmarshalOpts
+//@   requires rdr(r)
+//@   ensures inv(r) && r.base == old(r.base) && r.count >= old(r.count)
+//@   ensures err == nil ==> r.count >= old(r.count) + 6 && tr.TemplateID == be16(r.base, old(r.count))
+//@   ensures err != nil ==> err == reader.errReader
+//@   modifies tr, r.data, r.count
+//@   loop 1
+//@     invariant rdr(r) && r.base == old(r.base) && tr != nil && r.count >= old(r.count) + 6 && tr.TemplateID == be16(r.base, old(r.count)) && 0 <= i
+//@     decreases i
+//@   loop 2
+//@     invariant rdr(r) && r.base == old(r.base) && tr != nil && r.count >= old(r.count) + 6 && tr.TemplateID == be16(r.base, old(r.count)) && 0 <= i
+//@     decreases i
+
+//@ func (*Decoder).decodeData
+//@   requires rdr(d.reader)
+//@   ensures rdr(d.reader) && d.reader.base == old(d.reader.base) && d.raddr == old(d.raddr) && d.reader.count >= old(d.reader.count)
+//@   ensures err == nil ==> len(result) == len(tr.ScopeFieldSpecifiers) + len(tr.FieldSpecifiers)
+//@   ensures [progress] err == nil ==> d.reader.count > old(d.reader.count)
+//@   ensures [class] err != nil ==> err == reader.errReader || nonfatal9(err)
+//@   modifies d.reader.data, d.reader.count
+//@   loop 1
+//@     invariant rdr(d.reader) && d.reader.base == old(d.reader.base) && d.raddr == old(d.raddr) && d.reader.count >= old(d.reader.count) && r == d.reader
+//@     invariant 0 <= i && i <= len(tr.ScopeFieldSpecifiers) && len(fields) == i
+//@     decreases len(tr.ScopeFieldSpecifiers) - i
+//@   loop 2
+//@     invariant rdr(d.reader) && d.reader.base == old(d.reader.base) && d.raddr == old(d.raddr) && d.reader.count >= old(d.reader.count) && r == d.reader
+//@     invariant 0 <= i && i <= len(tr.FieldSpecifiers) && len(fields) == len(tr.ScopeFieldSpecifiers) + i
+//@     decreases len(tr.FieldSpecifiers) - i
+
+//@ func NewDecoder
+//@   ensures result != nil && result.raddr == raddr && rdr(result.reader) && result.reader.base == b && result.reader.count == 0
+
+// C09: a set is either consumed wholly (count advanced by at least its declared length; exactly when
+// no record overran the set) or the error is fatal and Decode returns nil.
+//@ func (*Decoder).decodeSet
+//@   requires rdr(d.reader) && msg != nil && wellFormed9(mem) && len(d.reader.base) <= 65535
+//@   ensures rdr(d.reader) && d.reader.base == old(d.reader.base) && d.raddr == old(d.raddr) && d.reader.count >= old(d.reader.count) && wellFormed9(mem)
+//@   ensures [hdr] err == nil || nonfatal9(err) ==> old(len(d.reader.data)) >= 4 && be16(d.reader.base, old(d.reader.count)+2) >= 4
+//@   ensures [advance] err == nil || nonfatal9(err) ==> d.reader.count >= old(d.reader.count) + be16(d.reader.base, old(d.reader.count)+2)
+//@   ensures [class] err != nil ==> nonfatal9(err) || fatal9(err)
+//@   ensures [records] len(msg.DataSets) >= old(len(msg.DataSets)) && len(msg.DataSets) - old(len(msg.DataSets)) <= d.reader.count - old(d.reader.count)
+//@   ensures msg.Header == old(msg.Header) && msg.AgentID == old(msg.AgentID)
+//@   modifies d.reader.data, d.reader.count, msg.DataSets
+//@   loop 1
+//@     invariant [rdr] rdr(d.reader) && d.reader.base == old(d.reader.base)
+//@     invariant [raddr] d.raddr == old(d.raddr) && msg != nil && setHeader != nil
+//@     invariant msg.Header == old(msg.Header) && msg.AgentID == old(msg.AgentID)
+//@     invariant startCount == old(d.reader.count) && d.reader.count >= startCount + 4 && old(len(d.reader.data)) >= 4
+//@     invariant setHeader.Length == be16(d.reader.base, startCount+2) && setHeader.FlowSetID == be16(d.reader.base, startCount) && setHeader.Length >= 4
+//@     invariant len(msg.DataSets) >= old(len(msg.DataSets)) && len(msg.DataSets) - old(len(msg.DataSets)) <= d.reader.count - startCount - 4
+//@     invariant err == nil || err == reader.errReader || nonfatal9(err)
+//@     decreases len(d.reader.data) + (err == nil ? 1 : 0)
+
+//@ func (*Decoder).Decode
+//@   requires rdr(d.reader) && d.reader.count == 0 && len(d.reader.base) <= 65535 && wellFormed9(mem)
+//@   ensures (len(old(d.reader.base)) < 20 || be16(old(d.reader.base), 0) != 9) ==> result == nil && err != nil
+//@   ensures result != nil ==> phdrAt(result.Header, old(d.reader.base), 0)
+//@   ensures [records] result != nil ==> len(result.DataSets) <= len(old(d.reader.base))
+//@   modifies d.reader.data, d.reader.count
+//@   loop 1
+//@     invariant rdr(d.reader) && d.reader.base == old(d.reader.base) && msg != nil && wellFormed9(mem) && d.reader.count >= 20
+//@     invariant phdrAt(msg.Header, d.reader.base, 0)
+//@     invariant len(msg.DataSets) <= d.reader.count
+//@     invariant forall i :: 0 <= i && i < len(decodeErrors) ==> decodeErrors[i] != nil
+//@     decreases len(d.reader.data)
+
+//@ func combineErrors
+//@   requires forall i :: 0 <= i && i < len(errorSlice) ==> errorSlice[i] != nil
+//@   ensures len(errorSlice) == 0 ==> err == nil
+//@   ensures len(errorSlice) > 0 ==> err != nil
+//@   loop 1
+//@     invariant true
+
+//@ func (MemCache).getShard
+//@   requires wellFormed9(m)
+//@   ensures result != nil && !result.Templates.isnil
+
+//@ func (*MemCache).insert
+//@   requires m != nil && wellFormed9(m)
+
+//@ func (*MemCache).retrieve
+//@   requires m != nil && wellFormed9(m)
